@@ -62,7 +62,9 @@ func (a vfStrAddr) String() string  { return string(a) }
 func (n *vfNet) socket(addr net.Addr) *vfSock {
 	s := &vfSock{n: n, addr: addr}
 	s.cond = vrt.NewCond(&s.mu)
+	n.mu.Lock()
 	n.socks[addr.String()] = s
+	n.mu.Unlock()
 	return s
 }
 
@@ -112,8 +114,8 @@ func (s *vfSock) WriteTo(p []byte, addr net.Addr) (int, error) {
 	s.mu.Unlock()
 	n := s.n
 	data := append([]byte(nil), p...)
-	to := n.socks[addr.String()]
 	n.mu.Lock()
+	to := n.socks[addr.String()]
 	if n.onSend != nil {
 		n.onSend(s, to, data)
 	}
